@@ -200,6 +200,7 @@ theorem fastPath_sound (vs : List Val) (bytes : List UInt8) (h : fastPath vs = s
         rw [ih rest hf, bytesToBits_append]
     | bin b => simp [fastPath] at h
     | dv b => simp [fastPath] at h
+    | dvSyn => simp [fastPath] at h
     | arr xs => simp [fastPath] at h
     | null => simp [fastPath] at h
     | bool b => simp [fastPath] at h
